@@ -569,7 +569,10 @@ class G:
             if name == "Div" and i == 1:
                 # divisor: a non-zero literal, a symbol, or an earlier result without bounds -- anything else may have
                 # the type [0,0], on which the type checker's bounds arithmetic divides by zero
-                k = self.prev(lambda t: t["base"] in ("int", "real") and t["unb"] and t["mag"] <= MAXMAG / 2)
+                # (an earlier result is no longer used as a divisor: since the type checker computes exact bounds, a
+                # product with a zero factor or a sum of zeros is typed [0,0] even when an operand is unbounded, and
+                # this generator's own type bookkeeping cannot tell)
+                k = None
                 r = rng.random()
                 if r < 0.5:
                     a, t = self.num_lit(MAXMAG / 2, nonzero=True)
